@@ -170,6 +170,10 @@ func checkEcho(d []byte, seq uint32, typ, flags uint16, payload []byte) error {
 
 // checkEchoPort: wantPort 0 = the port id is only known from the kernel's own (outer) header.
 func checkEchoPort(d []byte, seq uint32, typ, flags uint16, payload []byte, wantPort uint32) error {
+	return checkEchoErrno(d, seq, typ, flags, payload, wantPort, syscall.EOPNOTSUPP)
+}
+
+func checkEchoErrno(d []byte, seq uint32, typ, flags uint16, payload []byte, wantPort uint32, wantErrno syscall.Errno) error {
 	if len(d) < 36 {
 		return fmt.Errorf("kernel reply of %d bytes is too short for an error message with the echoed header", len(d))
 	}
@@ -183,8 +187,8 @@ func checkEchoPort(d []byte, seq uint32, typ, flags uint16, payload []byte, want
 	if wantPort != 0 && port != wantPort {
 		return fmt.Errorf("kernel reply addressed to port %d, the socket's port id is %d", port, wantPort)
 	}
-	if e := int32(ne.Uint32(d[16:])); e != -int32(syscall.EOPNOTSUPP) {
-		return fmt.Errorf("kernel answered errno %d, want EOPNOTSUPP (the harness only sends types above RTM_MAX)", -e)
+	if e := int32(ne.Uint32(d[16:])); e != -int32(wantErrno) {
+		return fmt.Errorf("kernel answered errno %d, want %d (the harness only sends message types the kernel refuses before looking at anything else)", -e, int(wantErrno))
 	}
 	// the echoed request
 	h := d[20:36]
@@ -744,6 +748,52 @@ func TestC18AuditClientBuffer(t *testing.T) {
 			hC18.NonTrivial(hx.FP("auditclientbuffer", n), func() string { return what })
 		}
 	}
+}
+
+// TestC18FlagSweep: every value of nlmsg_flags, zero and every value without NLM_F_REQUEST among them. The
+// route socket only echoes requests; the audit socket refuses a message of the unknown type 1098 with EINVAL
+// whatever its flags are, and the NLMSG_ERROR reply echoes the header as it was on the wire.
+func TestC18FlagSweep(t *testing.T) {
+	cl, err := libaudit.NewNetlinkClient(syscall.NETLINK_AUDIT, 0, make([]byte, 8192), nil)
+	if err != nil {
+		hC18.Class("no-audit-socket")
+		t.Skipf("NewNetlinkClient(NETLINK_AUDIT): %v", err)
+	}
+	defer cl.Close()
+	step := 1
+	if !hx.Thorough() {
+		step = 7 // every seventh value and every value below 1024
+	}
+	for f := 0; f < 65536; f++ {
+		if f >= 1024 && f%step != 0 && f&(f-1) != 0 {
+			continue
+		}
+		c := C18Case{Kind: "flagsweep", Type: 1098, Flags: uint16(f), Payload: []byte{byte(f), byte(f >> 8), 0xC3}}
+		hC18.Eval()
+		seq, err := cl.Send(syscall.NetlinkMessage{Header: syscall.NlMsghdr{Type: c.Type, Flags: c.Flags}, Data: c.Payload})
+		if err != nil {
+			hC18.Fail(t, "TestC18FlagSweep", c, "Send with flags %#x on the audit socket: %v", f, err)
+		}
+		var msgs []syscall.NetlinkMessage
+		for try := 0; try < 20000; try++ {
+			msgs, err = cl.Receive(true, rawParser)
+			if err == syscall.EAGAIN || err == syscall.EINTR {
+				time.Sleep(50 * time.Microsecond)
+				continue
+			}
+			break
+		}
+		if err != nil || len(msgs) != 1 {
+			hC18.Fail(t, "TestC18FlagSweep", c, "no NLMSG_ERROR reply to a message of type 1098 with flags %#x: %v %+v", f, err, msgs)
+		}
+		if err := checkEchoErrno(msgs[0].Data, seq, c.Type, c.Flags, c.Payload, 0, syscall.EINVAL); err != nil {
+			hC18.Fail(t, "TestC18FlagSweep", c, "Send(type 1098, flags %#x) returned sequence %d: %v", f, seq, err)
+		}
+		if f&syscall.NLM_F_REQUEST == 0 {
+			hC18.Class("flags-without-request-bit-echoed")
+		}
+	}
+	hC18.Class("flag-sweep")
 }
 
 // TestC18Uevent: kernel datagrams of lengths that are no multiple of four. The kernel's device-event broadcasts
